@@ -1,8 +1,12 @@
 package h
 
 import (
+	"bytes"
+	"crypto/sha1"
+	"encoding/hex"
 	"errors"
 	"fmt"
+	"hash"
 	"io"
 	"os"
 	"path/filepath"
@@ -153,11 +157,111 @@ type Eng struct {
 	seen     map[int]int // file id -> records already reported
 	rescan   bool
 	Dead     bool // a call panicked or hung: the trace must end
+
+	tx hash.Hash // digest of every result the engine returned (C14)
+
+	// hostile-caller mode (C15): one key buffer and one value buffer are reused
+	// for every call and scribbled over after each return
+	Hostile  bool
+	kbuf     []byte
+	vbuf     []byte
+	kshadow  []byte
+	vshadow  []byte
+	retained []retainedSlice
+	Canaries int
+}
+
+type retainedSlice struct {
+	got  []byte // the slice Get returned
+	copy []byte // what it held when it was returned
+}
+
+// TxDigest returns the digest of everything the engine has returned so far.
+func (e *Eng) TxDigest() string { return hex.EncodeToString(e.tx.Sum(nil)) }
+
+func (e *Eng) txf(format string, a ...any) { fmt.Fprintf(e.tx, format, a...) }
+
+// args returns the key and value slices to pass to the engine.
+func (e *Eng) args(rank, vid int) (key, val []byte) {
+	key = []byte{}
+	if rank > 0 {
+		key = e.U.Key(rank)
+	}
+	if vid != VNil {
+		val = e.V.Bytes(vid)
+	}
+	if !e.Hostile {
+		return key, val
+	}
+	if e.kbuf == nil {
+		e.kbuf = make([]byte, 64)
+		e.vbuf = make([]byte, 1<<18)
+		e.kshadow = append([]byte(nil), e.kbuf...)
+		e.vshadow = append([]byte(nil), e.vbuf...)
+	}
+	e.checkCallerBuffers()
+	copy(e.kbuf, key)
+	copy(e.vbuf, val)
+	return e.kbuf[:len(key)], e.vbuf[:len(val)]
+}
+
+func (e *Eng) checkCallerBuffers() {
+	ok := bytes.Equal(e.kbuf, e.kshadow) && bytes.Equal(e.vbuf, e.vshadow)
+	e.Canaries++
+	if !ok {
+		e.T.Emit(Ev{"ev": "note", "check": "caller_intact", "ok": false})
+	}
+}
+
+// scribble overwrites the caller's buffers after a call returned.
+func (e *Eng) scribble() {
+	if !e.Hostile || e.kbuf == nil {
+		return
+	}
+	for i := range e.kbuf {
+		e.kbuf[i] = 0xEE
+	}
+	n := 4096 + len(e.vbuf)/64
+	for i := 0; i < n && i < len(e.vbuf); i++ {
+		e.vbuf[i] = 0xEE
+	}
+	for i := len(e.vbuf) - 64; i < len(e.vbuf); i++ {
+		e.vbuf[i] = 0xEE
+	}
+	for i := 0; i < len(e.vbuf); i += 997 {
+		e.vbuf[i] = 0xEE
+	}
+	copy(e.kshadow, e.kbuf)
+	copy(e.vshadow, e.vbuf)
+	e.checkReturned()
+}
+
+func (e *Eng) checkReturned() {
+	ok := true
+	for _, r := range e.retained {
+		if !bytes.Equal(r.got, r.copy) {
+			ok = false
+		}
+	}
+	e.Canaries++
+	if !ok {
+		e.T.Emit(Ev{"ev": "note", "check": "returned_intact", "ok": false})
+	}
+}
+
+func (e *Eng) retain(b []byte) {
+	if !e.Hostile || len(b) == 0 {
+		return
+	}
+	if len(e.retained) >= 64 {
+		e.retained = e.retained[1:]
+	}
+	e.retained = append(e.retained, retainedSlice{got: b, copy: append([]byte(nil), b...)})
 }
 
 func NewEng(dir, scratch string, cfg Cfg, u *Keys, v *Values, t *Trace) *Eng {
 	return &Eng{Dir: dir, Scratch: scratch, Cfg: cfg, U: u, V: v, T: t,
-		batchIDs: map[uint64]int{}, seen: map[int]int{}, rescan: true}
+		batchIDs: map[uint64]int{}, seen: map[int]int{}, rescan: true, tx: sha1.New()}
 }
 
 func (e *Eng) BatchSmallID(id uint64) int {
@@ -176,7 +280,9 @@ func (e *Eng) op(op string, k, v, n, a int, res int, err string) {
 	if err == "panic" || err == "stuck" {
 		e.Dead = true
 	}
+	e.txf("%s %d %d %s|", op, k, res, err)
 	e.T.Emit(Ev{"ev": "op", "op": op, "k": k, "v": v, "n": n, "a": a, "res": res, "err": err})
+	e.scribble()
 }
 
 func (e *Eng) Open(cfg Cfg) string {
@@ -208,36 +314,27 @@ func (e *Eng) Close() string {
 }
 
 func (e *Eng) Put(rank int, vid int) string {
-	key := []byte{}
-	if rank > 0 {
-		key = e.U.Key(rank)
-	}
-	val := e.V.Bytes(vid)
+	key, val := e.args(rank, vid)
 	name := Guard(CallTimeout, func() error { return e.DB.Put(key, val) })
 	e.op("Put", rank, vid, len(val), 0, 0, name)
 	return name
 }
 
 func (e *Eng) Delete(rank int) string {
-	key := []byte{}
-	if rank > 0 {
-		key = e.U.Key(rank)
-	}
+	key, _ := e.args(rank, VNil)
 	name := Guard(CallTimeout, func() error { return e.DB.Delete(key) })
 	e.op("Delete", rank, 0, 0, 0, 0, name)
 	return name
 }
 
 func (e *Eng) Get(rank int) (int, string) {
-	key := []byte{}
-	if rank > 0 {
-		key = e.U.Key(rank)
-	}
+	key, _ := e.args(rank, VNil)
 	res := VNil
 	name := Guard(CallTimeout, func() error {
 		b, err := e.DB.Get(key)
 		if err == nil {
 			res = e.V.ID(b)
+			e.retain(b)
 		}
 		return err
 	})
@@ -270,31 +367,21 @@ func (e *Eng) NewBatch(sync bool) {
 }
 
 func (e *Eng) BPut(rank, vid int) string {
-	key := []byte{}
-	if rank > 0 {
-		key = e.U.Key(rank)
-	}
-	val := e.V.Bytes(vid)
+	key, val := e.args(rank, vid)
 	name := Guard(CallTimeout, func() error { return e.Batch.Put(key, val) })
 	e.op("BPut", rank, vid, len(val), 0, 0, name)
 	return name
 }
 
 func (e *Eng) BDelete(rank int) string {
-	key := []byte{}
-	if rank > 0 {
-		key = e.U.Key(rank)
-	}
+	key, _ := e.args(rank, VNil)
 	name := Guard(CallTimeout, func() error { return e.Batch.Delete(key) })
 	e.op("BDelete", rank, 0, 0, 0, 0, name)
 	return name
 }
 
 func (e *Eng) BGet(rank int) (int, string) {
-	key := []byte{}
-	if rank > 0 {
-		key = e.U.Key(rank)
-	}
+	key, _ := e.args(rank, VNil)
 	res := VNil
 	name := Guard(CallTimeout, func() error {
 		b, err := e.Batch.Get(key)
@@ -487,6 +574,7 @@ func (e *Eng) dump() {
 		})
 	})
 	ev["fk"], ev["fv"], ev["folderr"] = fk, fv, folderr
+	e.txf("D %v %s %v %s %v %v %s|", vals, geterr, keys, lkerr, fk, fv, folderr)
 	if lkerr == "panic" || lkerr == "stuck" || folderr == "panic" || folderr == "stuck" {
 		e.Dead = true
 	}
@@ -581,3 +669,6 @@ func b2i(b bool) int {
 func MergePath(dir string) string {
 	return filepath.Join(filepath.Dir(filepath.Clean(dir)), filepath.Base(dir)+"-merge")
 }
+
+// TxAdd adds driver-observed results (e.g. iteration orders) to the transcript digest.
+func (e *Eng) TxAdd(format string, a ...any) { e.txf(format, a...) }
